@@ -59,3 +59,11 @@ MUTS = [
  ("c20_include_restores_line_plus1", "C20", "as.c", "    MomLineCounter = PInp->StartLine;\n    strmaxcpy(CurrFileName, PInp->SaveAttr, STRINGSIZE);", "    MomLineCounter = PInp->StartLine + 1;\n    strmaxcpy(CurrFileName, PInp->SaveAttr, STRINGSIZE);"),
  ("c20_nested_expect_allowed", "C20", "asmerr.c", "    else if (InExpect) {\n        WrStrErrorPos(ErrNum_NoNestExpect, &OpPart);\n    } else {", "    else {"),
 ]
+
+# second round (seed-equivalent mutants; applied with a small script because the pattern occurs four times):
+#   c11_{irp,irpc,rept,while}_first_iter_pops : in the named *_Processor replace
+#         if (!PInp->First) { PopLocHandle(); }   by   PopLocHandle();
+#   c11_macro_restorer_never_pops            : delete the PopLocHandle() block of MACRO_Restorer
+#   c20_include_startline_not_saved          : delete `Tag->StartLine = MomLineCounter;` in ExpandINCLUDE_Core
+#   c20_include_restorer_keeps_counter       : delete `MomLineCounter = PInp->StartLine;` in INCLUDE_Restorer
+# all seven are reported by ./check C11 / C20 --tier quick (families `scope` / `after`); six pass 201/201 ctest.
